@@ -191,6 +191,10 @@ class SpecEvalMixin:
                 return type(a)(t, a.elem)
             if isinstance(a, VDict):
                 return VDict(t, a.k, a.v)
+            if isinstance(a, VAny):
+                if getattr(a, "tag", None) != getattr(b, "tag", None):
+                    raise Unsupported("merge of differently tagged opaque values")
+                return VAny(t, getattr(a, "tag", None))
             return type(a)(t)
         raise Unsupported(f"cannot merge {a!r} / {b!r}")
 
